@@ -17,7 +17,7 @@
 (***************************************************************************)
 EXTENDS DeviceSys, Json
 
-CONSTANTS Variant, Mode, OctB, SemiB, ChanB, TapActions, ExitLen, NBase, DumpEdges
+CONSTANTS Variant, Mode, OctB, SemiB, ChanB, TapActions, ExitLen, NBase, AxSet, DumpEdges
 
 StateActs == [KEY_F1 |-> "octave_down", KEY_F2 |-> "octave_up",
               KEY_F3 |-> "semitone_down", KEY_F4 |-> "semitone_up",
@@ -78,7 +78,50 @@ ExitCfg ==
      !.maps = << [name |-> "M1", axes |-> <<>>,
                   keys |-> [KEY_A |-> [n |-> 60, o |-> 0], KEY_S |-> [n |-> 60, o |-> 0]]] >>]
 
+\* ---- analog axes
+AxisDflt == [type |-> "cc", cc |-> 0, ccNeg |-> 0, note |-> 0, noteNeg |-> 0, off |-> 0, offNeg |-> 0,
+             act |-> "", actNeg |-> "", bidi |-> FALSE, flip |-> FALSE, centre |-> FALSE, dzn |-> 1, dzd |-> 10,
+             dzsrc |-> "specific"]
+
+\* C07: a signed 16-position stick and a centred unsigned 9-position stick, both bidirectional, with
+\* distinct controller numbers and channel offsets; cc-learning key
+BidiCfg ==
+  [BaseCfg EXCEPT
+     !.actions = [KEY_F9 |-> "cc_learning"],
+     !.maps = << [name |-> "M1", keys |-> <<>>,
+                  axes |-> [ABS_X |-> [AxisDflt EXCEPT !.cc = 1, !.ccNeg = 2, !.offNeg = 1, !.bidi = TRUE],
+                            ABS_Y |-> [AxisDflt EXCEPT !.cc = 3, !.ccNeg = 4, !.off = 2, !.bidi = TRUE, !.centre = TRUE,
+                                                       !.flip = TRUE]]] >>,
+     !.axinfo = [ABS_X |-> [min |-> -8, max |-> 7], ABS_Y |-> [min |-> 0, max |-> 8]]]
+
+\* C08: a hat, an unsigned flipped 9-level stick and a signed stick without negative note
+AKeyCfg ==
+  [BaseCfg EXCEPT
+     !.actions = Restrict(StateActs, {"KEY_F1", "KEY_F2", "KEY_F5", "KEY_F6"}),
+     !.maps = << [name |-> "M1", keys |-> <<>>,
+                  axes |-> [ABS_HAT0X |-> [AxisDflt EXCEPT !.type = "key", !.note = 60, !.noteNeg = 62, !.offNeg = 3,
+                                                           !.bidi = TRUE, !.dzn = 0],
+                            ABS_Z |-> [AxisDflt EXCEPT !.type = "key", !.note = 64, !.noteNeg = 65, !.bidi = TRUE,
+                                                       !.flip = TRUE, !.dzn = 0],
+                            ABS_RX |-> [AxisDflt EXCEPT !.type = "key", !.note = 127, !.off = 15, !.dzn = 0]]] >>,
+     !.axinfo = [ABS_HAT0X |-> [min |-> -1, max |-> 1], ABS_Z |-> [min |-> 0, max |-> 8],
+                 ABS_RX |-> [min |-> -4, max |-> 4]]]
+
+\* C06 (model level): one axis of each transmitting kind on small ranges
+AxisCfg ==
+  [BaseCfg EXCEPT
+     !.maps = << [name |-> "M1", keys |-> <<>>,
+                  axes |-> [ABS_X |-> [AxisDflt EXCEPT !.cc = 1],
+                            ABS_Y |-> [AxisDflt EXCEPT !.type = "pitch_bend", !.flip = TRUE],
+                            ABS_Z |-> [AxisDflt EXCEPT !.cc = 5, !.centre = TRUE],
+                            ABS_RZ |-> [AxisDflt EXCEPT !.type = "pitch_bend", !.off = 1, !.dzn = 0]]] >>,
+     !.axinfo = [ABS_X |-> [min |-> -16, max |-> 15], ABS_Y |-> [min |-> -16, max |-> 15],
+                 ABS_Z |-> [min |-> 0, max |-> 15], ABS_RZ |-> [min |-> 0, max |-> 15]]]
+
 MCCfg == CASE Variant = "keys" -> KeysCfg
+           [] Variant = "bidi" -> BidiCfg
+           [] Variant = "akey" -> AKeyCfg
+           [] Variant = "axis" -> AxisCfg
            [] Variant = "collide" -> CollideCfg
            [] Variant = "arith" -> ArithCfg
            [] Variant = "pairs" -> PairsCfg
@@ -94,7 +137,10 @@ Taps(K) == {[ev |-> "tap", k |-> k] : k \in K}
 Inputs ==
   (IF Variant \in {"arith", "pairs"} THEN Taps(NoteKeysOf(MCCfg)) ELSE PressRelease(NoteKeysOf(MCCfg) \cup OtherKeys))
   \cup (IF TapActions THEN Taps(DOMAIN MCCfg.actions) ELSE PressRelease(DOMAIN MCCfg.actions))
+  \cup {[ev |-> "axis", a |-> a, raw |-> r] : a \in DOMAIN MCCfg.axinfo \cap AxSet, r \in -16..16}
   \cup {[ev |-> "disconnect"]}
+
+AxisInRange(in) == in.ev = "axis" => (in.raw >= cfg.axinfo[in.a].min /\ in.raw <= cfg.axinfo[in.a].max)
 
 Bound(s) ==
   /\ s.oct \in -OctB..OctB /\ s.semi \in -SemiB..SemiB /\ s.chan \in 0..ChanB
@@ -106,7 +152,7 @@ InGuard(in) ==
   (Variant = "pairs" /\ in.ev = "press" /\ in.k \in DOMAIN cfg.actions) => DoublePair(st.acts) = "none"
 
 Init == InitWith(MCCfg)
-Next == \E in \in Inputs : Alternates(in) /\ InGuard(in) /\ ModelStep(in, Bound)
+Next == \E in \in Inputs : Alternates(in) /\ InGuard(in) /\ AxisInRange(in) /\ ModelStep(in, Bound)
 Spec == Init /\ [][Next]_vars
 
 \* the configuration, then every transition, for the tour generator
